@@ -146,8 +146,18 @@ def ref_case(draw):
     return {"where": where, "tree": draw(source_tree()), "ops": ops, "probe": probe}
 
 
+@st.composite
+def import_edge_case(draw):
+    """imports of nodes that hold one of the documented 'empty' values: the empty text given after a declaration, none
+    in a scalar or in an array node - each re-created with unchanged value, type and unit"""
+    return {"kind": "import_edge",
+            "which": draw(st.sampled_from(["declared_then_empty_text", "none_array", "none_scalar", "empty_text_definition"])),
+            "form": draw(st.sampled_from(["children", "single", "all"])),
+            "unit": draw(st.sampled_from([None, "cm", "m"])), "sibling": draw(st.integers(0, 9))}
+
+
 def strategies(tier):
-    return {"references": (ref_case(), 2000, 40000)}
+    return {"references": (ref_case(), 2000, 40000), "import_edge": (import_edge_case(), 120, 1500)}
 
 
 # --------------------------------------------------------------------------- rendering
@@ -473,6 +483,9 @@ def build(case):
 def check(case):
     v = Verdict()
     tmp = None
+    if case.get("kind") == "import_edge":
+        _check_edge(case, v)
+        return v
     try:
         if case["where"] == "remote":
             tmp = tempfile.mkdtemp(prefix="svc17_")
@@ -483,6 +496,40 @@ def check(case):
         if not R.tables_pristine():
             R.restore_tables()
     return v
+
+
+def _check_edge(case, v):
+    from scinumtools.dip import DIP, Format
+    w, form, unit = case["which"], case["form"], case["unit"]
+    u = f" {unit}" if unit else ""
+    if w == "declared_then_empty_text":
+        L, exp = ["g", "  e str", f"  other int = {case['sibling']}", 'g.e = ""'], ""
+    elif w == "empty_text_definition":
+        L, exp = ["g", '  e str = ""', f"  other int = {case['sibling']}"], ""
+    elif w == "none_array":
+        L, exp = ["g", f"  e float[3] = none{u}", f"  other int = {case['sibling']}"], (None, unit) if unit else None
+    else:
+        L, exp = ["g", f"  e float = none{u}", f"  other int = {case['sibling']}"], (None, unit) if unit else None
+    L.append({"children": "bag {?g.*}", "single": "bag {?g.e}", "all": "bag {?*}"}[form])
+    text = "\n".join(L)
+    pre = "bag.g." if form == "all" else "bag."
+    want = {"g.e": exp, "g.other": case["sibling"], pre + "e": exp}
+    if form != "single":
+        want[pre + "other"] = case["sibling"]
+    v.nt(True)
+    v.label("import_of_an_empty_value", w, "import_" + form)
+    v.info = {"text": text}
+    try:
+        with DIP(name=f"c17_{next(_uid)}") as p:
+            p.add_string(text)
+            env = p.parse()
+            got = env.data(Format.TUPLE)
+    except Exception as e:
+        return v.fail("import-raised", f"raised {e!r} for:\n{text}\n(expected {want!r})")
+    got = {k: (tuple(x) if isinstance(x, list) and w != "declared_then_empty_text" and len(x) == 2 and x[0] is None else x)
+           for k, x in got.items()}
+    if got != want:
+        return v.fail("import-value", f"got {got!r}, expected {want!r} for:\n{text}")
 
 
 def _same_list(got, exp):
